@@ -80,6 +80,10 @@ def build():
     if p.returncode != 0:
         shutil.rmtree(d, ignore_errors=True)
         raise DriverError('driver build failed:\n' + p.stderr[-4000:])
+    if 'Compiling riti' not in p.stderr:
+        # cargo took the crate for unchanged: the executable would not be built from THIS tree
+        shutil.rmtree(d, ignore_errors=True)
+        raise DriverError('driver build did not recompile the crate (stale artefact guard):\n' + p.stderr[-1500:])
     exe = os.path.join(TARGET, 'release', 'examples', 'verif_driver')
     # private copy of the executable so that concurrent checks do not race on it
     own = os.path.join(d, 'verif_driver.bin')
